@@ -28,6 +28,8 @@ RULE = ("every tree of U(n) (n up to the tier bound) drawn as generated, in chil
         "undefined} x operation (reseed_at, reroot_at_node, reroot_at_edge, reroot_at_midpoint, "
         "to_outgroup_position, randomly_reorient, randomly_rotate, ladderize, reorder) x every target node/edge "
         "of the documented domain x every flag setting x every requested length pair / scripted generator answer; "
+        "plus partly-None length assignments (every single / pair of edges without a length, one seed edge without "
+        "a length under all child orders) x the five re-seeding / re-rooting operations x all targets and flags; "
         "plus a stated finite set of large representatives (ladders, balanced trees, stars, a broom with 12..100 "
         "leaves, see bounds) x {unit, 1-2-3 cyclic} lengths x {rooted, unrooted} x every operation at a stated "
         "subset of targets and flag settings - exhaustive over that stated set only, same oracle; "
@@ -64,7 +66,7 @@ MANIFEST = {
     "technique": "bounded exhaustive enumeration with an independent reference model",
 }
 
-MENUS = ("full", "lengthy", "midpoint", "midpoint-noub", "midpoint-default")
+MENUS = ("full", "reroot", "lengthy", "reroot-noub", "midpoint", "midpoint-noub", "midpoint-default")
 OPS = ("reseed_at", "reroot_at_node", "reroot_at_edge", "reroot_at_midpoint", "to_outgroup_position",
        "randomly_reorient", "randomly_rotate", "ladderize", "reorder")
 SOFT = ("reseed_at",)
@@ -92,6 +94,16 @@ def bounds(tier):
             "reroot_at_midpoint only": (["{1,2,3} n <= 4 (update_bipartitions=False)", "{1,2} n = 5 (default flags)"] if q else
                                         ["{1,2,3} and {0,1,2} n <= 4 (all flags)", "{1,2} and {0,1} n = 5 (update_bipartitions=False)",
                                          "{1,2} binary n = 6 (default flags)"]),
+        },
+        "partly_None_lengths": {
+            "shapes": "n <= %d, as generated" % (4 if q else 5),
+            "None subsets": "every single non-root edge; every pair of non-root edges"
+                            + ("" if q else " (n = 5: update_bipartitions=False only)")
+                            + "; one of the two seed edges under every enumerated child order",
+            "other lengths": "distinct positive integers (pre-order index)", "rootings": [True, False],
+            "operations": "reseed_at, reroot_at_node, reroot_at_edge, reroot_at_midpoint, to_outgroup_position, every "
+                          "target and flag setting; None read as 0 by the oracle; a TypeError of reroot_at_midpoint on "
+                          "a missing length is counted, not reported",
         },
         "rootings": "rooted, unrooted; undefined for the unit pattern" + (" (and none / distinct-integer patterns n <= 4)" if q else
                     ", none and distinct-integer patterns (n = 6: unit; binary shapes also distinct integers, non-dyadic, "
@@ -239,6 +251,22 @@ def length_patterns(layer, shape, n, tier):
         add("none", pat_none(k), True, "full")
         if n <= 3:
             add("unit", pat_unit(k), True, "full")
+    # partly-None lengths: the named edges have no length, all others distinct positive integers
+    if layer in ("base", "order") and 2 <= n <= (4 if q else 5):
+        inc = pat_inc(k)
+
+        def holes(idx):
+            return [None if i in idx else x for i, x in enumerate(inc)]
+        if not isinstance(shape, int) and len(shape) == 2:
+            second = 1 + n_nodes(shape[0])
+            for i in (1, second):                       # one of the two seed edges, under every child order
+                add("pnseed", holes((i,)), True, "reroot")
+        if layer == "base":
+            for i in range(1, k):                       # every single edge
+                add("pn1", holes((i,)), True, "reroot")
+            for i in range(1, k):                       # every pair of edges
+                for j in range(i + 1, k):
+                    add("pn2", holes((i, j)), True, "reroot" if n <= 4 else "reroot-noub")
     return out
 
 
@@ -588,19 +616,21 @@ def edge_pairs(L):
 def op_menu(bf, lens_defined, menu, b, with_info):
     """Every (op, target, args) of the documented domain for the tree `bf`.
     Yields (op, target index or None, args dict, deciding?).
-    menu 'full': everything; 'lengthy': the operations that read or write edge lengths,
-    update_bipartitions=False only; 'midpoint*': reroot_at_midpoint only."""
+    menu 'full': everything; 'reroot': the five re-seeding / re-rooting operations with all flags;
+    'lengthy' / 'reroot-noub': the same with update_bipartitions=False only; 'midpoint*': reroot_at_midpoint only."""
     k = bf.k
     n = bf.nleaves
     internal = [i for i in range(k) if bf.is_internal(i)]
     leaves = [i for i in range(k) if not bf.is_internal(i)]
     full = menu == "full"
-    UB = BOOL if full else (False,)
-    if n >= 2 and lens_defined:
+    UB = BOOL if menu in ("full", "reroot") else (False,)
+    # (partly-None trees: reroot_at_midpoint is tried; a TypeError from comparing a missing length is outside
+    # the operation's domain and only counted, see run_case)
+    if n >= 2 and (lens_defined or menu.startswith("reroot")):
         if menu == "midpoint-default":
             yield ("reroot_at_midpoint", None, {"ub": False, "su": True, "cb": True}, True)
         else:
-            for ub in (BOOL if menu in ("full", "midpoint") else (False,)):
+            for ub in (BOOL if menu in ("full", "midpoint", "reroot") else (False,)):
                 for su in BOOL:
                     for cb in BOOL:
                         yield ("reroot_at_midpoint", None, {"ub": ub, "su": su, "cb": cb}, True)
@@ -731,12 +761,15 @@ def run_case(case, ctx, bf=None, deciding=True):
     nodes = holder.get("nodes")
 
     unif = "|input-has-unifurcation" if any(len(nd[3]) == 1 for nd in bf.nodes) else ""
+    partly = any(x is None for x in lens[1:]) and any(x is not None for x in lens[1:])
 
     def report(sig, msg):
-        # signature = operation | [input class] | symptom
+        # signature = operation | [input class] | symptom [| partly-None-lengths]
         parts = sig.split("|", 1)
         if op != "reroot_at_midpoint":      # (midpoint signatures carry the midpoint class instead)
             sig = parts[0] + unif + ("|" + parts[1] if len(parts) > 1 else "")
+        if partly:
+            sig += "|partly-None-lengths"
         if deciding:
             ctx.violation(sig, msg if len(msg) <= 1500 else msg[:1500] + " ...", case)
         return sig
@@ -749,6 +782,11 @@ def run_case(case, ctx, bf=None, deciding=True):
     pre = "%s on %s%s target=%r args=%r: " % (op, {True: "[&R]", False: "[&U]", None: ""}[rooted], short or show(sn), target, a)
     if status == "hang":
         return report("%s|hang" % op, pre + "step budget exceeded at %s" % (val,))
+    if status == "exc" and partly and op == "reroot_at_midpoint" and isinstance(val, TypeError):
+        # the midpoint search met an edge without a length: midpoint rooting needs lengths on the path
+        # it walks (documented domain), so this outcome is counted and never decides
+        ctx.count("info_midpoint_TypeError_on_missing_length")
+        return "out-of-domain"
     if status == "exc":
         return report("%s|exception|%s" % (op, type(val).__name__), pre + "raised %r" % (val,))
     probs = ref.wellformed(tree)
@@ -899,6 +937,8 @@ def run_chunk(chunk, ctx):
                         key = (shape, tuple(lens), rooted, op, target, tuple(sorted(args.items())))
                         ctx.case(key, nontrivial=bf.nleaves >= 3)
                         ctx.count("calls_%s" % op)
+                        if pname.startswith("pn"):
+                            ctx.count("calls_on_partly_None_lengths")
                         if op == "reroot_at_midpoint" and bf.midpoint_on_node(make_eq(dyadic)):
                             ctx.count("midpoint_calls_with_midpoint_on_existing_node")
                         res = run_case(case, ctx, bf, True)
